@@ -20,7 +20,7 @@ import time
 import numpy as np
 
 import vf.repoenv  # noqa: F401
-from vf.common import HELD, INCONCLUSIVE, VIOLATED, Run, case_hash, main_wrapper, run_pool, seed
+from vf.common import wall_budget, HELD, INCONCLUSIVE, VIOLATED, Run, case_hash, main_wrapper, run_pool, seed
 
 PID = "C03"
 
@@ -358,7 +358,7 @@ def main(tier, replay=None):
     cases = cases_for(tier, s)
     if replay:
         cases = [json.load(open(replay))["replay"]["case"]]
-    results = run_pool("c03", cases, per_case_timeout=900, chunk=1, deadline=time.time() + (480 if tier == "quick" else 3000))
+    results = run_pool("c03", cases, per_case_timeout=900, chunk=1, deadline=time.time() + wall_budget(tier, 480, 3000))
     for r in results:
         run.add(r)
     run.require("metamorphic_ok", 1000 if not replay else 1)
